@@ -47,6 +47,10 @@ def scenarios():
         if sc["ver"] != "12":
             continue
         out.append((name, sc))
+    # an application configured for both versions whose session negotiated DTLS 1.2 (the peer speaks 1.2 only)
+    base = dict(out[0][1])
+    out.append(("dual-config-client", dict(base, cver="dual", sver="12")))
+    out.append(("dual-config-server", dict(base, cver="12", sver="dual")))
     return out
 
 
